@@ -18,8 +18,15 @@ Img(x) == LET arch == x[1] IN
     nsec |-> 2, expsec |-> IF x[4] = "last" THEN 2 ELSE 1, secsize |-> 512,
     prepend |-> Rep(144, x[3]),
     append |-> CASE x[5] = "none" -> <<>> [] x[5] = "bytes" -> <<1, 2, 3, 255>> [] x[5] = "pad" -> Zeros(16) [] OTHER -> <<7, 0, 8>> \o Zeros(13)]
-Table == LET q == SetToSeq(Scn) IN
+\* a compact image (one 64-byte section) behind a prepend that looks like a table of small dwords: every scan offset inside the
+\* prepend reads a plausible e_lfanew, most of them pointing past the end of the stage
+DwordTable(n) == [i \in 1..n |-> CASE i % 4 = 1 -> 232 [] i % 4 = 2 -> 3 [] OTHER -> 0]          \* 1000 as u32le, repeated
+SmallImg(arch, n, exp) == [Img(<<arch, 64, 0, exp, "bytes", "default">>) EXCEPT !.nsec = 1, !.expsec = 1, !.secsize = 64, !.prepend = DwordTable(n)]
+SmallScn == Archs \X {61, 64, 257, 600, 959, 1020} \X {"none", "first"}
+Table == LET q == SetToSeq(Scn)  qs == SetToSeq(SmallScn) IN
          [i \in 1..Len(q) |-> [scn |-> q[i], stage |-> Stage(Img(q[i])), expect |-> Artifacts(Img(q[i]))]]
+         \o [i \in 1..Len(qs) |-> [scn |-> <<qs[i][1], 64, qs[i][2], qs[i][3], "bytes", "small">>,
+                                   stage |-> Stage(SmallImg(qs[i][1], qs[i][2], qs[i][3])), expect |-> Artifacts(SmallImg(qs[i][1], qs[i][2], qs[i][3]))]]
 ASSUME Mode = "table" => JsonSerialize(IOEnv.OUTF, Table)
 
 Tr == IF Mode = "trace" THEN ndJsonDeserialize(IOEnv.TRACE) ELSE <<>>
